@@ -54,7 +54,7 @@ func Gen(class string, seed uint64, k int) *Spec {
 	// ordered by the At of their head, chains stay attached
 	var groups [][]Action
 	for _, a := range s.Actions {
-		if a.After > 0 && len(groups) > 0 {
+		if (a.After > 0 || a.Chain) && len(groups) > 0 {
 			groups[len(groups)-1] = append(groups[len(groups)-1], a)
 		} else {
 			groups = append(groups, []Action{a})
